@@ -539,9 +539,11 @@ class DynamicBayesianNetwork(DAG):
             return_cpds = []
             for time_slice in time_slices:
                 for var in self.get_slice_nodes(time_slice=time_slice):
-                    cpd = self.get_cpds(node=var)
-                    if cpd:
-                        return_cpds.append(cpd)
+                    # A variable needn't have a node in both the time slices.
+                    if var in super(DynamicBayesianNetwork, self).nodes():
+                        cpd = self.get_cpds(node=var)
+                        if cpd:
+                            return_cpds.append(cpd)
             return return_cpds
 
     def remove_cpds(self, *cpds):
